@@ -1,7 +1,9 @@
-import Driver.Common
-/-! Line-protocol handlers for C17 (sub-commands `c17` / `c17-*`). -/
+import Driver.C01
+/-! Line-protocol handlers for C17 (sub-commands `c17` / `c17-*`): the two-endpoint TCP system
+of `Driver/C01.lean` (same ops, same answers). -/
 namespace Driver.C17
 
-def dispatch (_sub : String) (_i _o : IO.FS.Stream) : Option (IO Unit) := none
+def dispatch (sub : String) (i o : IO.FS.Stream) : Option (IO Unit) :=
+  if sub.startsWith "c17" then some (Driver.loop i o Driver.C01.step {}) else none
 
 end Driver.C17
